@@ -4,14 +4,26 @@ pub open spec fn is_perm(p: Seq<int>, n: int) -> bool { p.len() == n && p.no_dup
 pub open spec fn permuted<T>(pre: Seq<T>, post: Seq<T>, p: Seq<int>) -> bool {
     is_perm(p, pre.len() as int) && post.len() == pre.len() && forall|k: int| 0 <= k < pre.len() ==> post[k] == pre[#[trigger] p[k]]
 }
-// R33: V.sort_by(|x, y| F(x, y)) / V.sort_unstable_by(..)
+// ---- the comparator as a relation: x is not after y when the comparator can answer something other than Greater for (x, y)
+pub open spec fn le_by<T, F: FnMut(&T, &T) -> Ordering>(f: F, x: T, y: T) -> bool { exists|o: Ordering| #[trigger] f.ensures((&x, &y), o) && o != Ordering::Greater }
+// a comparator that sorting can rely on: total and transitive (std requires a total order of sort_by's comparator)
+pub open spec fn cmp_ok<T, F: FnMut(&T, &T) -> Ordering>(f: F) -> bool {
+    (forall|x: T, y: T| #[trigger] le_by(f, x, y) || le_by(f, y, x))
+    && (forall|x: T, y: T, z: T| #[trigger] le_by(f, x, y) && #[trigger] le_by(f, y, z) ==> le_by(f, x, z))
+}
+pub open spec fn cmp_same<T, F: FnMut(&T, &T) -> Ordering>(f: F, g: F) -> bool { forall|x: T, y: T| #[trigger] le_by(f, x, y) == le_by(g, x, y) }
+pub open spec fn sorted_by<T, F: FnMut(&T, &T) -> Ordering>(s: Seq<T>, f: F) -> bool { forall|i: int, j: int| 0 <= i <= j < s.len() ==> le_by(f, #[trigger] s[i], #[trigger] s[j]) }
+// R33: V.sort_by(|x, y| F(x, y)) / V.sort_unstable_by(..): std's contract — a permutation of the buffer, in the comparator's order
+// when the comparator is a total preorder; the comparator is used, not changed
 #[verifier::external_body]
 fn vsort_by<T, F: FnMut(&T, &T) -> Ordering>(v: &mut Vec<T>, f: &mut F)
-    ensures exists|p: Seq<int>| permuted(old(v)@, final(v)@, p),
+    ensures exists|p: Seq<int>| permuted(old(v)@, final(v)@, p), cmp_same::<T, F>(*old(f), *final(f)),
+        cmp_ok::<T, F>(*old(f)) ==> sorted_by(final(v)@, *old(f)),
 { v.sort_by(|x, y| f(x, y)) }
 #[verifier::external_body]
 fn vsort_unstable_by<T, F: FnMut(&T, &T) -> Ordering>(v: &mut Vec<T>, f: &mut F)
-    ensures exists|p: Seq<int>| permuted(old(v)@, final(v)@, p),
+    ensures exists|p: Seq<int>| permuted(old(v)@, final(v)@, p), cmp_same::<T, F>(*old(f), *final(f)),
+        cmp_ok::<T, F>(*old(f)) ==> sorted_by(final(v)@, *old(f)),
 { v.sort_unstable_by(|x, y| f(x, y)) }
 // <[T]>::reverse (documented behaviour)
 pub assume_specification<T>[ <[T]>::reverse ](s: &mut [T])
@@ -28,13 +40,127 @@ proof fn lemma_prov_perm<T>(pre: Seq<T>, post: Seq<T>, p: Seq<int>, all: Seq<T>,
     let idx2 = perm_idx(idx, p);
     assert forall|a: int, b: int| 0 <= a < idx2.len() && 0 <= b < idx2.len() && a != b implies idx2[a] != idx2[b] by { assert(p[a] != p[b]); }
 }
+// pairwise different integers in [0, n): at most n of them
+proof fn lemma_distinct_ints(s: Seq<int>, n: int)
+    requires s.no_duplicates(), forall|k: int| 0 <= k < s.len() ==> 0 <= #[trigger] s[k] < n, n >= 0,
+    ensures s.len() <= n,
+{
+    s.unique_seq_to_set();
+    vstd::set_lib::lemma_int_range(0, n);
+    assert(s.to_set().subset_of(vstd::set_lib::set_int_range(0, n))) by {
+        assert forall|x: int| s.to_set().contains(x) implies vstd::set_lib::set_int_range(0, n).contains(x) by { let k = choose|k: int| 0 <= k < s.len() && s[k] == x; assert(0 <= s[k] < n); }
+    }
+    vstd::set_lib::lemma_len_subset(s.to_set(), vstd::set_lib::set_int_range(0, n));
+}
+// in a permutation of [0, n), one of the positions m-1 .. n-1 holds a value below m (the m small values cannot all sit at the m-1 first positions)
+proof fn lemma_perm_preimage(p: Seq<int>, n: int, m: int)
+    requires is_perm(p, n), 1 <= m <= n,
+    ensures exists|k: int| m - 1 <= k < n && #[trigger] p[k] < m,
+{
+    if !(exists|k: int| m - 1 <= k < n && #[trigger] p[k] < m) {
+        lemma_injection_onto(p, n);
+        // pre[v] = a position holding the value v, for v < m: m pairwise different positions, all below m-1
+        let pre = Seq::new(m as nat, |v: int| choose|k: int| 0 <= k < p.len() && p[k] == v);
+        assert forall|v: int| 0 <= v < m implies 0 <= #[trigger] pre[v] < m - 1 && p[pre[v]] == v by {
+            assert(p.contains(v));
+            let k = pre[v];
+            assert(0 <= k < p.len() && p[k] == v);
+            if k >= m - 1 { assert(p[k] < m); }
+        }
+        assert(pre.no_duplicates()) by {
+            assert forall|a: int, b: int| 0 <= a < pre.len() && 0 <= b < pre.len() && a != b implies pre[a] != pre[b] by { assert(p[pre[a]] == a && p[pre[b]] == b); }
+        }
+        lemma_distinct_ints(pre, m - 1);
+        assert(false);
+    }
+}
+// one cut: the buffer b0 is sorted into b1 (a permutation p) and cut after `limit` entries.  The kept entries are not after the new
+// threshold b1[limit-1], the cut ones are not before it, and the new threshold is not after the old one (when there was one: the first
+// `limit` entries of b0 were not after it)
+proof fn lemma_cut<T, F: FnMut(&T, &T) -> Ordering>(f: F, b0: Seq<T>, b1: Seq<T>, p: Seq<int>, limit: int, thr: Option<T>)
+    requires cmp_ok::<T, F>(f), permuted(b0, b1, p), sorted_by(b1, f), 1 <= limit <= b1.len(),
+        thr matches Some(t) ==> forall|q: int| 0 <= q < limit ==> le_by(f, #[trigger] b0[q], t),
+    ensures forall|q: int| 0 <= q < limit ==> le_by(f, #[trigger] b1[q], b1[limit - 1]),
+        forall|q: int| limit <= q < b1.len() ==> le_by(f, b1[limit - 1], #[trigger] b1[q]),
+        thr matches Some(t) ==> le_by(f, b1[limit - 1], t),
+{
+    if thr is Some {
+        let t = thr->0;
+        lemma_perm_preimage(p, b0.len() as int, limit);
+        let k = choose|k: int| limit - 1 <= k < b0.len() && #[trigger] p[k] < limit;
+        assert(b1[k] == b0[p[k]]);
+        assert(le_by(f, b0[p[k]], t));
+        assert(le_by(f, b1[limit - 1], b1[k]));
+        assert(le_by(f, b1[limit - 1], t));
+    }
+}
+// comparators that answer alike are interchangeable
+proof fn lemma_cmp_same<T, F: FnMut(&T, &T) -> Ordering>(f: F, g: F, s: Seq<T>)
+    requires cmp_same::<T, F>(f, g),
+    ensures cmp_ok::<T, F>(f) == cmp_ok::<T, F>(g), sorted_by(s, f) == sorted_by(s, g),
+{
+    assert forall|x: T, y: T| le_by(f, x, y) == le_by(g, x, y) by { }
+    if cmp_ok::<T, F>(f) {
+        assert forall|x: T, y: T| #[trigger] le_by(g, x, y) || le_by(g, y, x) by { assert(le_by(f, x, y) || le_by(f, y, x)); }
+        assert forall|x: T, y: T, z: T| #[trigger] le_by(g, x, y) && #[trigger] le_by(g, y, z) implies le_by(g, x, z) by { assert(le_by(f, x, y) && le_by(f, y, z)); }
+    }
+    if cmp_ok::<T, F>(g) {
+        assert forall|x: T, y: T| #[trigger] le_by(f, x, y) || le_by(f, y, x) by { assert(le_by(g, x, y) || le_by(g, y, x)); }
+        assert forall|x: T, y: T, z: T| #[trigger] le_by(f, x, y) && #[trigger] le_by(f, y, z) implies le_by(f, x, z) by { assert(le_by(g, x, y) && le_by(g, y, z)); }
+    }
+    if sorted_by(s, f) { assert forall|i: int, j: int| 0 <= i <= j < s.len() implies le_by(g, #[trigger] s[i], #[trigger] s[j]) by { assert(le_by(f, s[i], s[j])); } }
+    if sorted_by(s, g) { assert forall|i: int, j: int| 0 <= i <= j < s.len() implies le_by(f, #[trigger] s[i], #[trigger] s[j]) by { assert(le_by(g, s[i], s[j])); } }
+}
+// the ordering invariant of the adapter: `thr` is the last kept entry of the latest cut (None before the first cut); nothing consumed
+// is missing from the buffer before the first cut; afterwards the first `limit` buffer entries are not after thr and everything
+// that was cut away is not before it
+pub open spec fn ord_inv<T, F: FnMut(&T, &T) -> Ordering>(f: F, buf: Seq<T>, all: Seq<T>, idx: Seq<int>, consumed: int, limit: int, thr: Option<T>) -> bool {
+    match thr {
+        None => forall|i: int| 0 <= i < consumed ==> idx.contains(i),
+        Some(t) => buf.len() >= limit && (forall|q: int| 0 <= q < limit ==> le_by(f, #[trigger] buf[q], t))
+            && (forall|i: int| 0 <= i < consumed && !idx.contains(i) ==> le_by(f, t, #[trigger] all[i])),
+    }
+}
+// one sort-and-cut step re-establishes the invariant with the new threshold b1[limit-1]
+proof fn lemma_after_cut<T, F: FnMut(&T, &T) -> Ordering>(f: F, all: Seq<T>, consumed: int, b0: Seq<T>, idx0: Seq<int>, b1: Seq<T>, p: Seq<int>, limit: int, thr: Option<T>)
+    requires cmp_ok::<T, F>(f), prov(b0, all, idx0, consumed), permuted(b0, b1, p), sorted_by(b1, f), 1 <= limit <= b1.len(), consumed <= all.len(),
+        ord_inv(f, b0, all, idx0, consumed, limit, thr),
+    ensures ord_inv(f, b1.take(limit), all, perm_idx(idx0, p).take(limit), consumed, limit, Some(b1[limit - 1])),
+{
+    let idx1 = perm_idx(idx0, p);
+    let idx2 = idx1.take(limit);
+    let b2 = b1.take(limit);
+    let t2 = b1[limit - 1];
+    lemma_prov_perm(b0, b1, p, all, idx0, consumed);
+    lemma_cut(f, b0, b1, p, limit, thr);
+    lemma_injection_onto(p, b0.len() as int);
+    assert forall|q: int| 0 <= q < limit implies le_by(f, #[trigger] b2[q], t2) by { assert(b2[q] == b1[q]); }
+    assert forall|i: int| 0 <= i < consumed && !idx2.contains(i) implies le_by(f, t2, #[trigger] all[i]) by {
+        if idx0.contains(i) {
+            // it was in the buffer: after sorting it sits at some position k, which must be at or after the cut
+            let a = choose|a: int| 0 <= a < idx0.len() && idx0[a] == i;
+            assert(p.contains(a));
+            let k = choose|k: int| 0 <= k < p.len() && p[k] == a;
+            assert(idx1[k] == i);
+            if k < limit { assert(idx2[k] == i); assert(idx2.contains(i)); }
+            assert(b1[k] == all[i]);
+            assert(le_by(f, t2, b1[k]));
+        } else {
+            // it had been cut away before
+            let t = thr->0;
+            assert(thr is Some);
+            assert(le_by(f, t, all[i]));
+            assert(le_by(f, t2, t));
+        }
+    }
+}
 // @item rust/core/src/utils/limitsort.rs :: trait LimitSort
 pub trait LimitSort: Iterator + Sized {
     fn limit_sort<F>(self, limit: usize, sort_fn: F) -> (ret: LimitSortIter<Self::Item, Self, F>)
     where
         F: (FnMut(&Self::Item, &Self::Item) -> Ordering),
         requires limit <= 0x7fff_ffff_ffff_ffff, self.obeys_prophetic_iter_laws(), self.decrease() is Some,
-        ensures ret.ready(), !ret.done, ret.limit == limit, ret.source == self,
+        ensures ret.ready(), !ret.done, ret.limit == limit, ret.source == self, ret.sort_fn == sort_fn,
     {
         LimitSortIter { sort_fn, source: self, buffer: Vec::with_capacity(limit * 2), limit, stable: true, done: false }
     }
@@ -42,7 +168,7 @@ pub trait LimitSort: Iterator + Sized {
     where
         F: (FnMut(&Self::Item, &Self::Item) -> Ordering),
         requires limit <= 0x7fff_ffff_ffff_ffff, self.obeys_prophetic_iter_laws(), self.decrease() is Some,
-        ensures ret.ready(), !ret.done, ret.limit == limit, ret.source == self,
+        ensures ret.ready(), !ret.done, ret.limit == limit, ret.source == self, ret.sort_fn == sort_fn,
     {
         LimitSortIter { sort_fn, source: self, buffer: Vec::with_capacity(limit * 2), limit, stable: false, done: false }
     }
@@ -66,6 +192,31 @@ proof fn lemma_first_call<T>(b: Seq<T>, all: Seq<T>, idx: Seq<int>, limit: usize
         assert(sel_len(full, all, limit));
     } else {
         assert(sel_len(b.reverse(), all, limit));
+    }
+}
+// LS-ord: the items handed out are in the comparator's order, and whatever was left out is not before the last one handed out
+pub open spec fn ord_sel<T, F: FnMut(&T, &T) -> Ordering>(full: Seq<T>, all: Seq<T>, f: F) -> bool {
+    sorted_by(full, f) && exists|idx: Seq<int>| selection(full, all, idx) && (forall|i: int| 0 <= i < all.len() && !#[trigger] idx.contains(i) && full.len() > 0 ==> le_by(f, full.last(), all[i]))
+}
+pub open spec fn first_call_ord<T, F: FnMut(&T, &T) -> Ordering>(ret: Option<T>, buf: Seq<T>, all: Seq<T>, f: F) -> bool {
+    match ret { Some(x) => ord_sel(seq![x] + buf.reverse(), all, f), None => ord_sel(buf.reverse(), all, f) }
+}
+proof fn lemma_first_call_ord<T, F: FnMut(&T, &T) -> Ordering>(b: Seq<T>, all: Seq<T>, idx: Seq<int>, f: F)
+    requires selection(b.reverse(), all, idx), sorted_by(b.reverse(), f),
+        forall|i: int| 0 <= i < all.len() && !#[trigger] idx.contains(i) && b.len() > 0 ==> le_by(f, b.reverse().last(), all[i]),
+    ensures b.len() > 0 ==> first_call_ord(Some(b[b.len() - 1]), b.subrange(0, b.len() - 1), all, f),
+        b.len() == 0 ==> first_call_ord(None::<T>, b, all, f),
+{
+    if b.len() > 0 {
+        let full = seq![b[b.len() - 1]] + b.subrange(0, b.len() - 1).reverse();
+        assert(full =~= b.reverse());
+        assert(selection(full, all, idx));
+        assert(ord_sel(full, all, f));
+    } else {
+        let full = b.reverse();
+        assert(full.len() == 0);
+        assert(sorted_by(full, f));
+        assert(ord_sel(full, all, f));
     }
 }
 #[verifier::reject_recursive_types(T)]
@@ -105,6 +256,9 @@ where
             // LS-sel: the first call drains the source; what it returns and leaves pending is a selection of min(n, limit) of the
             // source's items at pairwise different positions
             !old(self).done ==> first_call_post(ret, final(self).buffer@, old(self).source.remaining(), old(self).limit),
+            // LS-ord: for a comparator that is a total preorder, they are in its order and nothing left out is before the last of them
+            cmp_same::<T, F>(old(self).sort_fn, final(self).sort_fn),
+            !old(self).done && cmp_ok::<T, F>(old(self).sort_fn) ==> first_call_ord(ret, final(self).buffer@, old(self).source.remaining(), old(self).sort_fn),
             // afterwards the pending items are handed out one by one
             old(self).done ==> (old(self).pending().len() > 0 ==> ret == Some(old(self).pending()[0]) && final(self).pending() == old(self).pending().skip(1))
                 && (old(self).pending().len() == 0 ==> ret is None && final(self).pending().len() == 0),
@@ -116,12 +270,17 @@ where
         let ghost mut consumed: int = 0;
         let ghost mut idx: Seq<int> = Seq::empty();
         let ghost was_done = *done;
+        let ghost f0 = *sort_fn;
+        let ghost ok = cmp_ok::<T, F>(f0) && limit > 0;
+        let ghost mut thr: Option<T> = None;
         if !*done {
             loop
                 invariant source.obeys_prophetic_iter_laws(), source.decrease() is Some, limit <= 0x7fff_ffff_ffff_ffff,
                     0 <= consumed <= all.len(), source.remaining() == all.skip(consumed),
                     prov(buffer@, all, idx, consumed),
                     buffer@.len() <= consumed, buffer@.len() >= (if consumed < limit { consumed } else { limit as int }),
+                    cmp_same::<T, F>(f0, *sort_fn), ok == (cmp_ok::<T, F>(f0) && limit > 0),
+                    ok ==> ord_inv(f0, buffer@, all, idx, consumed, limit as int, thr),
                 ensures consumed == all.len(),
                 decreases source.decrease().unwrap(),
             {
@@ -130,8 +289,16 @@ where
                         buffer.push(item);
                         proof {
                             assert(item == all[consumed]);
+                            let ghost idx_old = idx;
                             idx = idx.push(consumed);
                             consumed = consumed + 1;
+                            if ok {
+                                assert forall|i: int| 0 <= i < consumed && idx_old.contains(i) implies idx.contains(i) by {
+                                    let a = choose|a: int| 0 <= a < idx_old.len() && idx_old[a] == i; assert(idx[a] == i);
+                                }
+                                assert(idx[idx.len() - 1] == consumed - 1);
+                                assert(idx.contains(consumed - 1));
+                            }
                             assert(all.skip(consumed - 1).drop_first() =~= all.skip(consumed));
                             assert(prov(buffer@, all, idx, consumed)) by {
                                 assert forall|a: int, b: int| 0 <= a < idx.len() && 0 <= b < idx.len() && a != b implies idx[a] != idx[b] by {
@@ -141,18 +308,27 @@ where
                         }
                         if buffer.len() >= limit * 2 {
                             let ghost pre0 = buffer@;
+                            let ghost fpre0 = *sort_fn;
                             if stable {
                                 vsort_by(buffer, sort_fn);
                             } else {
                                 vsort_unstable_by(buffer, sort_fn);
                             };
+                            let ghost sorted0 = buffer@;
                             proof {
                                 let p = choose|p: Seq<int>| permuted(pre0, buffer@, p);
                                 lemma_prov_perm(pre0, buffer@, p, all, idx, consumed);
+                                if ok {
+                                    lemma_cmp_same(f0, fpre0, sorted0);
+                                    lemma_after_cut(f0, all, consumed, pre0, idx, sorted0, p, limit as int, thr);
+                                }
                                 idx = perm_idx(idx, p);
                             }
                             buffer.truncate(limit);
-                            proof { idx = idx.take(limit as int); }
+                            proof {
+                                idx = idx.take(limit as int);
+                                if ok { thr = Some(sorted0[limit as int - 1]); assert(buffer@ =~= sorted0.take(limit as int)); }
+                            }
                         }
                     }
                     _ => {
@@ -161,24 +337,51 @@ where
                 }
             }
             let ghost pre1 = buffer@;
+            let ghost fpre1 = *sort_fn;
             if stable {
                 vsort_by(buffer, sort_fn);
             } else {
                 vsort_unstable_by(buffer, sort_fn);
             };
+            let ghost sorted1 = buffer@;
+            let ghost idx_pre = idx;
             proof {
                 let p = choose|p: Seq<int>| permuted(pre1, buffer@, p);
                 lemma_prov_perm(pre1, buffer@, p, all, idx, consumed);
+                if cmp_ok::<T, F>(f0) { lemma_cmp_same(f0, fpre1, sorted1); }
+                if ok && sorted1.len() >= limit {
+                    lemma_after_cut(f0, all, consumed, pre1, idx, sorted1, p, limit as int, thr);
+                }
+                if ok && sorted1.len() < limit {
+                    // no cut so far and none now: every consumed item is still in the buffer
+                    lemma_injection_onto(p, pre1.len() as int);
+                    assert(pre1.len() == sorted1.len());
+                    assert(thr is None);
+                    assert forall|i: int| 0 <= i < consumed implies perm_idx(idx, p).contains(i) by {
+                        assert(idx.contains(i));
+                        let a = choose|a: int| 0 <= a < idx.len() && idx[a] == i;
+                        assert(p.contains(a));
+                        let k = choose|k: int| 0 <= k < p.len() && p[k] == a;
+                        assert(perm_idx(idx, p)[k] == i);
+                    }
+                }
                 idx = perm_idx(idx, p);
             }
             buffer.truncate(limit);
-            proof { if limit < idx.len() { idx = idx.take(limit as int); } }
+            proof {
+                if limit < idx.len() { idx = idx.take(limit as int); }
+                if ok && sorted1.len() >= limit { thr = Some(sorted1[limit as int - 1]); assert(buffer@ =~= sorted1.take(limit as int)); assert(idx =~= perm_idx(idx_pre, choose|p: Seq<int>| permuted(pre1, sorted1, p)).take(limit as int)); }
+            }
             let ghost b2 = buffer@;
             buffer.reverse();
             proof {
                 assert(buffer@.reverse() =~= b2);
                 assert(selection(buffer@.reverse(), all, idx));
                 assert(b2.len() == (if all.len() < limit { all.len() } else { limit as nat }));
+                if cmp_ok::<T, F>(f0) {
+                    assert(sorted_by(sorted1, f0));
+                    assert(sorted_by(b2, f0)) by { assert forall|i: int, j: int| 0 <= i <= j < b2.len() implies le_by(f0, #[trigger] b2[i], #[trigger] b2[j]) by { assert(b2[i] == sorted1[i] && b2[j] == sorted1[j]); } }
+                }
             }
             *done = true;
         }
@@ -198,6 +401,16 @@ where
                 assert(selection(b.reverse(), all, idx));
                 assert(b.reverse().len() == (if all.len() < limit { all.len() } else { limit as nat }));
                 lemma_first_call(b, all, idx, limit);
+                if cmp_ok::<T, F>(f0) {
+                    assert(sorted_by(b.reverse(), f0));
+                    assert forall|i: int| 0 <= i < all.len() && !#[trigger] idx.contains(i) && b.len() > 0 implies le_by(f0, b.reverse().last(), all[i]) by {
+                        if limit > 0 {
+                            assert(thr is Some);
+                            assert(thr->0 == b.reverse().last());
+                        }
+                    }
+                    lemma_first_call_ord(b, all, idx, f0);
+                }
             }
         }
         buffer.pop()
@@ -213,8 +426,11 @@ pub fn limit_sort_all<T, F: FnMut(&T, &T) -> Ordering>(items: Vec<T>, limit: usi
     requires limit <= 0x7fff_ffff_ffff_ffff,
     ensures r@.len() == (if items@.len() < limit { items@.len() } else { limit as nat }), // [LSsel]
         exists|idx: Seq<int>| selection(r@, items@, idx), // [LSsel]
+        // LS-ord: for a comparator that is a total preorder the result is in its order and no item left out is before the last one
+        cmp_ok::<T, F>(cmp) ==> ord_sel(r@, items@, cmp), // [LSord]
 {
     let ghost all = items@;
+    let ghost f0 = cmp;
     let mut it = items.into_iter().limit_sort_unstable(limit, cmp);
     let mut out: Vec<T> = Vec::new();
     let first = it.next();
@@ -224,7 +440,7 @@ pub fn limit_sort_all<T, F: FnMut(&T, &T) -> Ordering>(items: Vec<T>, limit: usi
         None => { proof { assert(it.pending() =~= Seq::<T>::empty()); } return out; }
     }
     loop
-        invariant it.ready(), it.done, out@ + it.pending() =~= full, sel_len(full, all, limit),
+        invariant it.ready(), it.done, out@ + it.pending() =~= full, sel_len(full, all, limit), cmp_ok::<T, F>(f0) ==> ord_sel(full, all, f0),
         ensures out@ =~= full,
         decreases it.pending().len(),
     {
